@@ -1,4 +1,4 @@
-(* C03: makeOfficialGlyphOrder as TRANSLATED from /repo's util.py on this run (Generated/Imp.v: the imperative code,
+(* C03: makeOfficialGlyphOrder and makeUnicodeToGlyphNameMapping as TRANSLATED from /repo's util.py on this run (Generated/Imp.v: the imperative code,
    statement by statement, over the state (names, order)) is the hand model `glyph_order` of Order/GlyphOrder.v -- so the
    theorems of GlyphOrderProofs.v are theorems about the code as it reads now. *)
 From Coq Require Import ZArith List Bool.
@@ -49,3 +49,93 @@ Proof. rewrite translated_glyph_order_is_the_model. exact (glyph_order_perm keys
 Example code_order_example :
   tr_glyph_order [[98]; notdef; [97]; [99]] [[99]; [120]; [99]; [97]] = [notdef; [99]; [97]; [98]].
 Proof. vm_compute. reflexivity. Qed.
+
+(* ---- makeUnicodeToGlyphNameMapping ---- *)
+Lemma zfind_zassoc k m : zfind k m = zassoc k m.
+Proof. induction m as [|[k' v] m IH]; cbn [zfind zassoc]; [reflexivity|]. destruct (Z.eqb k k'); [reflexivity|exact IH]. Qed.
+
+Lemma zset_absent k v m : zfind k m = None -> zset k v m = m ++ [(k, v)].
+Proof.
+  induction m as [|[k' v'] m IH]; cbn [zfind zset app]; intro H; [reflexivity|].
+  destruct (Z.eqb k k'); [discriminate|]. rewrite IH by exact H. reflexivity.
+Qed.
+
+(* what the hand model's result looks like in the translated code's state *)
+Definition u2g_state (r : u2g_res) (st : list (Z * str) * option (str * Z * str)) : Prop :=
+  match r with
+  | U2G_ok m => st = (m, None)
+  | U2G_dup cp g prev => exists m, st = (m, Some (g, cp, prev))
+  end.
+
+Lemma inner_sticky g us0 us : forall m e, fold_left (tr_u2g_loop1 g us0) us (m, Some e) = (m, Some e).
+Proof. induction us as [|u us IH]; intros m e; cbn [fold_left]; [reflexivity|]. cbn [tr_u2g_loop1]. apply IH. Qed.
+
+Lemma inner_is_u2g_glyph g us0 us : forall m,
+  u2g_state (u2g_glyph g us m) (fold_left (tr_u2g_loop1 g us0) us (m, None)).
+Proof.
+  induction us as [|u us IH]; intro m; cbn [fold_left u2g_glyph]; [reflexivity|].
+  unfold tr_u2g_loop1 at 2. unfold zmem, zget. rewrite zfind_zassoc.
+  destruct (zassoc u m) as [prev|] eqn:E; cbn [negb].
+  - rewrite inner_sticky. exists m. reflexivity.
+  - rewrite zset_absent by (rewrite zfind_zassoc; exact E). apply IH.
+Qed.
+
+Lemma outer_sticky gl : forall m e, fold_left tr_u2g_loop2 gl (m, Some e) = (m, Some e).
+Proof. induction gl as [|[g us] gl IH]; intros m e; cbn [fold_left]; [reflexivity|]. cbn [tr_u2g_loop2]. apply IH. Qed.
+
+Lemma outer_is_u2g gl : forall m, u2g_state (u2g gl m) (fold_left tr_u2g_loop2 gl (m, None)).
+Proof.
+  induction gl as [|[g us] gl IH]; intro m; cbn [fold_left u2g]; [reflexivity|].
+  unfold tr_u2g_loop2 at 2. cbv beta iota zeta.
+  pose proof (inner_is_u2g_glyph g us us m) as H.
+  destruct (u2g_glyph g us m) as [m'|cp g' prev]; cbn [u2g_state] in H; unfold cmapping in *.
+  - rewrite H. apply IH.
+  - destruct H as [m'' H]. rewrite H. rewrite outer_sticky. exists m''. reflexivity.
+Qed.
+
+Theorem translated_u2g_is_the_model gl :
+  tr_u2g gl = match u2g gl [] with U2G_ok m => inl m | U2G_dup cp g prev => inr (g, cp, prev) end.
+Proof.
+  unfold tr_u2g. pose proof (outer_is_u2g gl []) as H.
+  destruct (u2g gl []) as [m|cp g prev]; cbn [u2g_state] in H; unfold cmapping in *.
+  - rewrite H. reflexivity.
+  - destruct H as [m H]. rewrite H. reflexivity.
+Qed.
+
+(* the theorems of GlyphOrderProofs.v, about the translated code: the mapping is returned exactly when no code point is
+   declared twice, and it is then the list of (code point, glyph) pairs in glyph order *)
+Theorem code_u2g_ok_iff_no_duplicate gl : tr_u2g gl = inl (pairs_of gl) <-> has_duplicate_cp gl = false.
+Proof.
+  rewrite translated_u2g_is_the_model. split.
+  - intro H. apply u2g_error_iff_duplicate. destruct (u2g gl []) as [m|cp g prev]; [|discriminate].
+    injection H as H. exists m. split; [reflexivity|exact H].
+  - intro H. apply u2g_error_iff_duplicate in H. destruct H as [m [H1 H2]]. rewrite H1, H2. reflexivity.
+Qed.
+
+Theorem code_u2g_raises_iff_duplicate gl : (exists e, tr_u2g gl = inr e) <-> has_duplicate_cp gl = true.
+Proof.
+  split.
+  - intros [e He]. destruct (has_duplicate_cp gl) eqn:E; [reflexivity|].
+    apply code_u2g_ok_iff_no_duplicate in E. rewrite E in He. discriminate.
+  - intro E. unfold has_duplicate_cp in E. rewrite negb_true_iff in E.
+    assert (~ NoDup (flat_map snd gl)) as N by (intro N; apply nodup_z_NoDup in N; congruence).
+    destruct (u2g_dup gl [] (NoDup_nil _) N) as [cp [g [prev U]]].
+    rewrite translated_u2g_is_the_model, U. eexists. reflexivity.
+Qed.
+
+(* the returned mapping sends a code point to the glyph that declares it, and to nothing else *)
+Theorem code_cmap_sound_complete gl m cp g :
+  tr_u2g gl = inl m -> (zassoc cp m = Some g <-> exists us, In (g, us) gl /\ In cp us).
+Proof.
+  intro H.
+  assert (has_duplicate_cp gl = false) as D.
+  { destruct (has_duplicate_cp gl) eqn:E; [|reflexivity].
+    apply code_u2g_raises_iff_duplicate in E. destruct E as [e E]. rewrite E in H. discriminate. }
+  pose proof (proj2 (code_u2g_ok_iff_no_duplicate gl) D) as K. rewrite K in H. injection H as H. subst m.
+  apply u2g_sound_complete. unfold has_duplicate_cp in D. rewrite negb_false_iff in D. apply nodup_z_NoDup. exact D.
+Qed.
+
+Example code_u2g_example :
+  tr_u2g [([97], [97; 65]); ([98], [98])] = inl [(97, [97]); (65, [97]); (98, [98])] /\
+  tr_u2g [([97], [97]); ([98], [98; 97])] = inr ([98], 97, [97]).
+Proof. split; vm_compute; reflexivity. Qed.
